@@ -141,6 +141,19 @@ fn ref_hint(s: &Subject) -> &'static str {
     }
 }
 
+/// The asynchronous entry point (`Reader::with_stream_async`) driven on a current-thread runtime.
+fn read_async(hint: &str, bytes: &[u8]) -> report::Outcome {
+    let h = hint.to_string();
+    let b = bytes.to_vec();
+    match report::catch_sdk(move || {
+        let rt = tokio::runtime::Builder::new_current_thread().enable_all().build().expect("runtime");
+        rt.block_on(async move { iokit::outcome_of(c2pa::Reader::from_context(ctx()).with_stream_async(&h, std::io::Cursor::new(b)).await) })
+    }) {
+        Ok(o) => o,
+        Err(p) => iokit::panic_outcome(p),
+    }
+}
+
 fn read_choppy(hint: &str, bytes: &[u8], seed: u64, max_chunk: usize) -> report::Outcome {
     iokit::read_stream(ctx(), hint, Shim::new(Cursor::new(bytes.to_vec()), Mode::Choppy { max_chunk, interrupt_every: 0 }, seed))
 }
@@ -328,6 +341,8 @@ fn main() {
                 if *c < run.tier.pick(1, 3) {
                     *c += 1;
                     work.push((si, hi, "choppy"));
+                    // the asynchronous reader must sniff the container exactly like the synchronous one
+                    work.push((si, hi, "async"));
                 }
             }
         }
@@ -345,16 +360,18 @@ fn main() {
             let h = &hints[hi];
             let o = if mode == "mem" {
                 iokit::read_mem(ctx(), h, &s.bytes)
+            } else if mode == "async" {
+                read_async(h, &s.bytes)
             } else {
                 read_choppy(h, &s.bytes, seed ^ (si as u64), chunk_of(si))
             };
-            let mem_same = mode == "choppy" && differing(&refs[si], &iokit::read_mem(ctx(), h, &s.bytes)).is_none();
+            let mem_same = mode != "mem" && differing(&refs[si], &iokit::read_mem(ctx(), h, &s.bytes)).is_none();
             let mut nondet = false;
             if s.family.is_none() && mode == "mem" {
                 let o2 = iokit::read_mem(ctx(), h, &s.bytes);
                 nondet = differing(&o, &o2).is_some();
             }
-            let rf = if mode == "mem" { &refs[si] } else { &refs_choppy[si] };
+            let rf = if mode == "choppy" { &refs_choppy[si] } else { &refs[si] };
             let diff = differing(rf, &o);
             let detail = match diff {
                 Some("report") => report::diff_paths(&rf.report, &o.report, 3).join(" ; "),
@@ -373,7 +390,7 @@ fn main() {
         run.eval();
         let hf = hint_family(&r.hint);
         let w = json!({"subject": s.name, "variant": s.variant, "true_fmt": s.true_fmt, "len": s.bytes.len(), "hint": r.hint, "mode": r.mode,
-            "reference": out_class(if r.mode == "mem" { &refs[r.subject] } else { &refs_choppy[r.subject] }), "hinted": r.out, "detail": r.detail,
+            "reference": out_class(if r.mode == "choppy" { &refs_choppy[r.subject] } else { &refs[r.subject] }), "hinted": r.out, "detail": r.detail,
             "bytes_hex": if s.bytes.len() <= 4096 { hex::encode(&s.bytes) } else { String::new() }});
         if let Some(p) = &r.panic {
             run.violation(&format!("{}|{}|panic", s.family.unwrap_or("nomagic"), hf), &format!("panic reading {} under hint {:?}: {p}", s.name, r.hint), w.clone());
@@ -392,6 +409,8 @@ fn main() {
                     // (c) short reads change the verdict even under a same-family hint (C35's subject too).
                     let sig = if r.mode == "mem" {
                         format!("{fam}|{hf}|{d}")
+                    } else if r.mode == "async" {
+                        format!("async-reader|{}|{d}", if hf == fam { "same-family-hint" } else { "other-family-hint" })
                     } else if r.mem_same && hf != fam {
                         run.count("short_read_sniff_fallback_to_hint", 1);
                         "any-magic|other-family-hint|short-first-read-defeats-sniffing".to_string()
